@@ -360,9 +360,25 @@ func (wtr *JSONWtr) writeString(s string) error {
 // bases an identityref value of the leaf is looked up in: the leaf's own, or those of
 // the leaf a leafref points to
 func identityBases(m meta.Definition) []*meta.Identity {
-	t := m.(meta.HasType).Type()
-	for hops := 0; t.Format().Single() == val.FmtLeafRef && hops < 64; hops++ {
-		t = t.Resolve()
+	var bases []*meta.Identity
+	collectIdentityBases(m.(meta.HasType).Type(), 0, &bases)
+	return bases
+}
+
+// the bases an identityref value of the type may be derived from: those of the type itself,
+// of the leaf a leafref points to, of the identityref members of a union
+func collectIdentityBases(t *meta.Type, hops int, bases *[]*meta.Identity) {
+	if t == nil || hops > 64 {
+		return
 	}
-	return t.Base()
+	switch t.Format().Single() {
+	case val.FmtLeafRef:
+		collectIdentityBases(t.Resolve(), hops+1, bases)
+	case val.FmtUnion:
+		for _, member := range t.Union() {
+			collectIdentityBases(member, hops+1, bases)
+		}
+	case val.FmtIdentityRef:
+		*bases = append(*bases, t.Base()...)
+	}
 }
